@@ -120,6 +120,23 @@ for pid, title in [("C16", "names and metadata (WalkAtomic, WalkPrefix, QidIdent
         "TLA+/TLC model checking + tour/simulation replay on real Ufs with twin-tree comparison + TLC trace validation of the twin log",
         "ufstree", "DESIGN.md 4.6, 6 " + pid + ", docs/ufstree.md"))
 CHECKS += [
+    chk("C09", "model_checking",
+        "Clnt9P.tla models callers (ReqAlloc, Rpcnb enqueue, hand-off, wait, ReqFree), the receive and send goroutines and an arbitrary "
+        "peer at schedule-point grain; OwnReply, DistinctTags, Recycling, FIFOPerTag are model-checked for up to 3 callers / 3 calls each "
+        "(incl. a Tag-interface caller); complete transition tours of the healthy-connection graphs are replayed on the real client under a "
+        "client-side gate controller with a scripted peer and validated by TLC (Clnt9PTrace); free-running engines cover 1..64 callers, every "
+        "reply order for up to 5 calls, arbitrary segmentation and >65 535 consecutive calls (thorough).",
+        "Trusted base: TLC, testing/synctest, the scripted peer and harness/wire. The peer answers only requests it has received, each once.",
+        "TLA+/TLC model checking + transition-tour replay on the real client under a gate controller + TLC trace validation + free-running "
+        "stress with an external payload oracle", "client", "DESIGN.md 4.3, 6 C09, docs/client.md"),
+    chk("C10", "model_checking",
+        "Clnt9P with six fault kinds (peer close, cut, garbage, oversize, unknown tag, Unmount) at any point: NoHang is TLC's deadlock check, "
+        "NoFalseSuccess, CompleteReplyDelivered, NoPanic; the fault graphs are replayed on the real client (every transition of the K=2 graph, "
+        "samples of the larger ones) with failures injected at every client schedule point; the reply stream is cut after every byte offset; "
+        "a hang is a goroutine still blocked when the synctest bubble ends (exact, no timeouts).",
+        "Trusted base as C09. Transports whose Read returns data together with an error are not covered.",
+        "TLA+/TLC model checking (deadlock = hang) + fault-graph replay on the real client under a gate controller + TLC trace validation + "
+        "cut-at-every-byte sweeps", "client", "DESIGN.md 4.3, 6 C10, docs/client.md"),
     chk("C19", "exploration",
         "The property is defined by the Go race detector, which is the oracle. Work19.tla specifies the workload domain (goroutines on "
         "their own fids, walks from a shared fid, flushes of own requests, quiescent connections opened and dropped) and TLC checks that "
@@ -182,6 +199,8 @@ def main():
               "kind_free_text": "real client + real Ufs on a scratch tree"},
              {"name": "ufstree", "path": "harness/ufstree + spec/UfsTree.tla, UfsTreeTrace.tla", "serves_properties": ["C16", "C17", "C18"],
               "kind_free_text": "raw 9P + twin tree + model"},
+             {"name": "client", "path": "harness/clnth + spec/Clnt9P.tla, Clnt9PTrace.tla", "serves_properties": ["C09", "C10"],
+              "kind_free_text": "client-side gate controller, scripted peer, scripted net.Conn"},
              {"name": "race", "path": "harness/raceh + spec/Work19.tla", "serves_properties": ["C19"],
               "kind_free_text": "-race builds of workload skeletons"},
              {"name": "logger", "path": "harness/logh + spec/Logger.tla, LoggerTrace.tla", "serves_properties": ["C20"],
